@@ -25,13 +25,13 @@ RULE = ('full product: structure {Obs, list(1..3), ndarray (2,) (2,2) (1,2,2) an
         'transports; members of one list / array / correlator on equally long but different configuration lists (refused or faithful); Obs.dump / Corr.dump / pickle; pandas csv and sqlite with gz on/off; dump_dict_to_json.  Every emitted '
         'document is validated against examples/json_schema.json.  Non-trivial = everything except the plain single-chain Obs '
         'with tag None')
-ASSUMPTIONS = ['fluctuations and replica means are compared to 1e-13 of the chain scale (the format stores delta + (r - value))',
+ASSUMPTIONS = ['fluctuations are compared to 1e-13 of the largest fluctuation of the chain, replica means to 1e-13 of the chain scale (the format stores delta + (r - value))',
                'NaN tokens written for undefined Corr slices are parsed with the Python json module before schema validation']
 EXHAUSTIVE = True
 REPEAT = 2      # every case is evaluated twice in the same process: the second verdict must equal the first (call-history oracle)
 CHUNK = 2
 
-CONTENTS = ['single', 'tworep', 'multi', 'purecov', 'reweighted', 'bare', 'trap', 'npidl']
+CONTENTS = ['single', 'tworep', 'multi', 'purecov', 'reweighted', 'bare', 'trap', 'npidl', 'bigmean']
 MAGS = [1.0, 1e-12, 1e12]
 TAGS = [None, 'a tag', '', 0, 1.5, False, True, ['x', 1], {'k': 'v', 'n': 2}]
 
@@ -60,6 +60,8 @@ def make(pe, content, key, mag=1.0):
     elif content == 'reweighted':
         w = alpha.make_obs(pe, {'A|r1': 'c12', 'A|r2': 'c8'}, ('c11', 'w'), 'white', 1.0, 0.05)[0]
         o = prim({'A|r1': 'c12', 'A|r2': 'c8'}, 0, 0.8).reweight(w)
+    elif content == 'bigmean':     # a large mean with small, precisely known fluctuations (two replica)
+        o = prim({'A|r1': 'c12', 'A|r2': 'c8'}, 0, 0.4) * 1e-3 + 1e6
     elif content == 'bare':
         o = prim({'A': 'big'}, 0, 2.0)
     elif content == 'trap':    # irregular lists whose length and end points would also fit an equally spaced list
@@ -95,7 +97,9 @@ def same_obs(a, b, pe, check_tag=True):
         if a.shape[n] != b.shape[n]:
             return 'shape of %s' % n
         csc = max(sc, abs(a.r_values[n]))
-        if not np.all(np.abs(a.deltas[n] - b.deltas[n]) <= 1e-13 * csc):
+        # fluctuations are stored as such: they come back on their own scale (a large mean does not blur them)
+        dsc = max(np.max(np.abs(a.deltas[n])), abs(a.r_values[n] - a.value))
+        if not np.all(np.abs(a.deltas[n] - b.deltas[n]) <= 1e-13 * dsc + 4e-16 * abs(a.r_values[n] - a.value) + 1e-300):
             return 'fluctuations of %s differ by %g (scale %g)' % (n, np.max(np.abs(a.deltas[n] - b.deltas[n])), csc)
         if not abs(a.r_values[n] - b.r_values[n]) <= 1e-13 * csc:
             return 'replica mean of %s: %r -> %r' % (n, a.r_values[n], b.r_values[n])
